@@ -21,7 +21,8 @@ MC_CFG = {
               {"id": "bC", "pb": [], "sb": [], "pd": [], "sd": [], "per": [], "seg": [{"id": "g9", "addr": 0}], "rev": []}],
     "trains": [{"id": "t1", "al": 35, "ah": 1, "steps": 28, "cal": [5, 15, 30, 45, 60, 75, 90, 105, 126],
                 "per": [{"id": "f0", "bit": 0, "initial": None}, {"id": "f4", "bit": 4, "initial": 1}, {"id": "f9", "bit": 9, "initial": None}]},
-               {"id": "t2", "al": 2, "ah": 3, "steps": 126, "cal": None, "per": []}],
+               {"id": "t2", "al": 2, "ah": 3, "steps": 126, "cal": None,
+                "per": [{"id": "h%d" % b, "bit": b, "initial": None} for b in (24, 31, 16, 23, 8, 11, 12, 15)]}],
 }
 MC_PATHS = {"bA": [], "bB": [1]}
 
